@@ -513,6 +513,7 @@ func C07(r *eng.Run) {
 	p.ZeroReads = r.T.Chance(sim.LFault, 1, 8)
 	cfg.ZeroBuf = cfg.App == AppReader && r.T.Chance(sim.LFault, 1, 8)
 	cfg.SkipEmpty = cfg.App == AppReader && r.T.Chance(sim.LCfg, 1, 3) // empty unfragmented messages are not read at all
+	cfg.RereadAfterUTF8 = cfg.App == AppReader && r.T.Bool(sim.LCfg)
 	if cfg.App == AppReader && cfg.Bufio == 0 && !cfg.OnContRead && r.T.Chance(sim.LFault, 1, 6) {
 		// One temporary read error inside the payload of a data frame; the
 		// application reads every unit to its end and retries.
